@@ -194,13 +194,24 @@ def activation_revalidates(ctx):
         for (cnt, bits, found, ok) in ((2, 32, 1, True), (3, 32, 1, False), (1, 8, 0, False), (2, 64, 1, False)):
             pe = PEval(m, f)
             pe.record_sets = False
-            pe.store_filter = lambda k, fld: fld is not None and fld[1] == 'ObjNum'
+            pe.store_filter = lambda k, fld: fld is not None and fld[1] in ('ObjNum', 'Size', 'Map')
             trs = pe.run({'pdo': 1, 'num': 0, 'out:CODictRdByte:2': cnt, 'call:CODictRdByte': NONE,
                           'call:CODictRdLong': NONE, 'out:CODictRdLong:2': 0x21000000 | bits, 'call:CODictFind': found})
             site = '%s count=%d entry-bits=%d target-found=%d' % (f, cnt, bits, found)
             bad = None
             for t in trs:
-                stored = [e for e in t.stores()]
+                stored = [e for e in t.stores() if e[4][1] == 'ObjNum']
+                if ok:
+                    # decode of the mapping entry: the object is looked up under the entry itself (index, sub-index in the
+                    # upper 24 bits), its width in bytes is the length field / 8, the count stored is the entry count
+                    finds = [c[2][1] for c in t.calls() if c[1] == 'CODictFind']
+                    sizes = [e[2] for e in t.stores() if e[4][1] == 'Size']
+                    if finds != [0x21000000 | bits] * cnt:
+                        bad = 'mapped object looked up under %s, the entry is %08Xh' % ([hex(x) if x is not None else None for x in finds], 0x21000000 | bits)
+                    elif f == 'COTPdoGetMap' and sizes != [bits >> 3] * cnt:
+                        bad = 'widths stored %s, required %d bytes each' % (sizes, bits >> 3)
+                    elif [e[2] for e in stored][-1:] != [cnt]:
+                        bad = 'number of mapped objects stored %s, required %d' % ([e[2] for e in stored], cnt)
                 if ok and (t.ret != NONE or not stored):
                     bad = 'valid mapping is not activated (returns %s)' % t.ret
                 if not ok and (t.ret == NONE or t.ret is None or stored):
